@@ -156,6 +156,8 @@ struct World {
     waker: Waker,
     r: Ref,
     trace: Vec<String>,
+    /// [max_pending, event codes...]: published to the watchdog before every driver call
+    hist: Vec<u8>,
 }
 
 struct Chan {
@@ -240,65 +242,8 @@ fn modify_kind(w: &mut World, ev: Ev) -> Result<(), String> {
     Ok(())
 }
 
-impl Model for Chan {
-    type Event = Ev;
-    type Obj = World;
-
-    fn init(&self) -> World {
-        self.rebuilds.fetch_add(1, Ordering::Relaxed);
-        let (tx, rx) = hook::merge_channel::<Batch>();
-        let flag = Arc::new(Flag { woken: AtomicBool::new(false), wakes: AtomicU64::new(0) });
-        let waker = Waker::from(flag.clone());
-        World {
-            fut: None,
-            rx: Some(Box::new(rx)),
-            tx: Some(tx),
-            flag,
-            waker,
-            r: Ref {
-                slot: None,
-                sender_alive: true,
-                receiver_alive: true,
-                phase: Phase::Idle,
-                next_k: 1,
-                permit: false,
-                waiter: Waiter::None,
-                pushed: vec![],
-                received: vec![],
-                retracted: vec![],
-                batches: 0,
-                got_none: false,
-            },
-            trace: Vec::new(),
-        }
-    }
-
-    fn enabled(&self, w: &World) -> Vec<Ev> {
-        let r = &w.r;
-        let mut v = Vec::new();
-        let in_flight = r.phase != Phase::Idle;
-        if r.sender_alive {
-            if r.slot.as_ref().map(|s| s.len()).unwrap_or(0) < self.max_pending {
-                v.push(Ev::Push);
-            }
-            v.push(Ev::Retract);
-            v.push(Ev::Touch);
-            v.push(Ev::DropSender);
-        }
-        if r.receiver_alive {
-            if in_flight {
-                v.push(Ev::PollRecv);
-                v.push(Ev::CancelRecv);
-            } else {
-                v.push(Ev::StartRecv);
-                v.push(Ev::TryRecv);
-                v.push(Ev::DropReceiver);
-            }
-        }
-        v
-    }
-
-    fn apply(&self, w: &mut World, ev: &Ev) -> Result<(), String> {
+impl Chan {
+    fn apply_inner(&self, w: &mut World, ev: &Ev) -> Result<(), String> {
         match *ev {
             Ev::Push | Ev::Retract | Ev::Touch => {
                 let alive_before = w.r.receiver_alive;
@@ -414,7 +359,74 @@ impl Model for Chan {
             }
         }
     }
+}
 
+impl Model for Chan {
+    type Event = Ev;
+    type Obj = World;
+
+    fn init(&self) -> World {
+        self.rebuilds.fetch_add(1, Ordering::Relaxed);
+        let (tx, rx) = hook::merge_channel::<Batch>();
+        let flag = Arc::new(Flag { woken: AtomicBool::new(false), wakes: AtomicU64::new(0) });
+        let waker = Waker::from(flag.clone());
+        World {
+            fut: None,
+            rx: Some(Box::new(rx)),
+            tx: Some(tx),
+            flag,
+            waker,
+            r: Ref {
+                slot: None,
+                sender_alive: true,
+                receiver_alive: true,
+                phase: Phase::Idle,
+                next_k: 1,
+                permit: false,
+                waiter: Waiter::None,
+                pushed: vec![],
+                received: vec![],
+                retracted: vec![],
+                batches: 0,
+                got_none: false,
+            },
+            trace: Vec::new(),
+            hist: vec![self.max_pending as u8],
+        }
+    }
+
+    fn enabled(&self, w: &World) -> Vec<Ev> {
+        let r = &w.r;
+        let mut v = Vec::new();
+        let in_flight = r.phase != Phase::Idle;
+        if r.sender_alive {
+            if r.slot.as_ref().map(|s| s.len()).unwrap_or(0) < self.max_pending {
+                v.push(Ev::Push);
+            }
+            v.push(Ev::Retract);
+            v.push(Ev::Touch);
+            v.push(Ev::DropSender);
+        }
+        if r.receiver_alive {
+            if in_flight {
+                v.push(Ev::PollRecv);
+                v.push(Ev::CancelRecv);
+            } else {
+                v.push(Ev::StartRecv);
+                v.push(Ev::TryRecv);
+                v.push(Ev::DropReceiver);
+            }
+        }
+        v
+    }
+
+    fn apply(&self, w: &mut World, ev: &Ev) -> Result<(), String> {
+        w.hist.push(ALL.iter().position(|e| e == ev).unwrap() as u8);
+        h_drv::watchdog::enter(&w.hist);
+        let r = self.apply_inner(w, ev);
+        h_drv::watchdog::leave();
+        r
+    }
     fn check(&self, w: &World) -> Result<(), String> {
         let r = &w.r;
         // no lost wake-up at poll granularity
@@ -574,7 +586,16 @@ fn key_of(what: &str) -> &'static str {
     }
 }
 
+/// watchdog bytes -> replayable case
+fn describe_hang(bytes: &[u8]) -> Value {
+    let names: Vec<&str> = bytes.iter().skip(1).filter_map(|c| ALL.get(*c as usize)).map(|e| e.name()).collect();
+    json!({"events": names, "max_pending": bytes.first().copied().unwrap_or(3), "note": "the last event is the call that does not return"})
+}
+
 fn main() {
+    // parent: runs the leg in a child and turns "a driver call did not return" into a violation
+    h_drv::watchdog::guard("C19", "bfs", "model_checking", "E-BFS", "poll:does-not-return");
+    h_drv::watchdog::start_monitor(Duration::from_secs(10), describe_hang);
     vcore::quiet_panics();
     let r = Report::new("C19", "bfs", "model_checking", "E-BFS");
     let max_pending = r.args.extra_value("--max-pending").and_then(|s| s.parse().ok()).unwrap_or(r.tier().pick(3usize, 6usize));
